@@ -204,7 +204,12 @@ impl Flounder {
         let reserve = 5_000; // Try to always keep 5 seconds
         let available = time_left.saturating_sub(reserve);
         let base_time = available / 25;
-        let allocated = base_time + increment;
+
+        // Never budget more than what is left on the clock (minus a small margin for
+        // communication overhead): a large increment or a low clock must not lose on time
+        let move_overhead = 50;
+        let max_time = time_left.saturating_sub(move_overhead);
+        let allocated = base_time.saturating_add(increment).min(max_time);
 
         Some(Duration::from_millis(allocated))
     }
